@@ -275,8 +275,8 @@ def check_c08(tier, replay=None):
             go_case(cases, f, rng.choice([4, 5]) if f not in DENSE else 4, "ab", mode="free", warm=warm if rng.random() < 0.3 else (), w=30,
                     why="deeper search: table decisions only", ttcap=2000)
         # stalemates on the horizon: move-less and not in check must be valued 0 wherever it occurs in the tree
-        for f in stalemate_prone(rng, 500 if T else 50):
-            go_case(cases, f, rng.choice([1, 2]), "plain", w=8, why="bare king at the edge, hostile queen close by: stalemates at the horizon")
+        for f in stalemate_prone(rng, 4000 if T else 500):
+            go_case(cases, f, rng.choice([1, 2]), "plain", w=3, why="bare king at the edge, hostile queen close by: stalemates at the horizon")
         # carry-over: another game went through these very positions on the same engine before (position commands only); this game is
         # its bare FEN - no repetition history - so the exact value must be that of a fresh engine ("irrespective of what was searched before")
         for _ in range(120 if T else 6):
@@ -510,8 +510,8 @@ def check_c11(tier, replay=None):
             a = go_case(cases, f, d, "ab", mode="free", w=3, why="search score on a random light position ...")
             go_case(cases, flip_fen(f), d, "ab", mode="free", flipof=a["id"], w=3, why="... and on its colour-flipped twin")
         # stalemate scores as a draw wherever it occurs in the tree, also exactly at the horizon
-        for f in stalemate_prone(rng, 400 if T else 90):
-            go_case(cases, f, rng.choice([1, 2]), "plain", w=8, why="bare king at the edge, hostile queen close by: stalemates at the horizon")
+        for f in stalemate_prone(rng, 2500 if T else 300):
+            go_case(cases, f, rng.choice([1, 2]), "plain", w=3, why="bare king at the edge, hostile queen close by: stalemates at the horizon")
         # mate distances for both sides and both colours: candidate forced mates (certificate verified by TLC): the mating side must
         # announce mate k <= N, the side being mated (position after the certified move) mate -k with k <= N - 1
         for i, f in enumerate(mate_candidates(rng, 8000 if T else 400)):
